@@ -3,7 +3,11 @@ use llgv::engine::{factory, matcher, GrammarSpec};
 fn main() {
     let a: Vec<String> = std::env::args().collect();
     let v = llgv::walk::byte_vocab();
-    let f = factory(&v);
+    let f = if std::env::var("SLICES").is_ok() {
+        llgv::engine::factory_ext(&v, &llguidance::earley::SlicedBiasComputer::general_slices(), llguidance::toktrie::InferenceCapabilities::default(), None).unwrap()
+    } else {
+        factory(&v)
+    };
     let g = if let Some(path) = a[1].strip_prefix("lark:") {
         GrammarSpec::Lark(std::fs::read_to_string(path).unwrap())
     } else if let Some(path) = a[1].strip_prefix("jsonfile:") {
@@ -13,7 +17,11 @@ fn main() {
     };
     let m = matcher(&f, &g);
     if let Some(e) = m.get_error() {
-        println!("compile error: {}", e.lines().next().unwrap_or(""));
+        if std::env::var("FULL").is_ok() {
+            println!("compile error: {}", e);
+        } else {
+            println!("compile error: {}", e.lines().next().unwrap_or(""));
+        }
         return;
     }
     for t in &a[2..] {
